@@ -1,4 +1,5 @@
 import asyncio
+import math
 import sys
 
 from klongpy.core import KGCall, KGFn, KGFnWrapper
@@ -33,11 +34,15 @@ def _call_periodic(loop: asyncio.BaseEventLoop, name, interval, callback):
             if interval == 0:
                 handle.delegate = loop.call_soon(run, handle)
             else:
-                handle.delegate = loop.call_later(interval - ((loop.time() - start) % interval), run, handle)
+                # next boundary after now, and never the one just served (the loop may dispatch
+                # a handle slightly before its deadline, and the modulo is subject to rounding)
+                handle.tick = max(handle.tick + 1, math.floor((loop.time() - start) / interval) + 1)
+                handle.delegate = loop.call_at(start + handle.tick * interval, run, handle)
         else:
             handle.cancel()
 
     periodic = KGTimerHandler(name, interval)
+    periodic.tick = 1
     if interval == 0:
         periodic.delegate = loop.call_soon(run, periodic)
     else:
